@@ -49,20 +49,38 @@ def prefixes(maxlen):
     return out + EXTRA_PREFIXES
 
 
+class UserError(Exception):
+    """an exception class of the user's own, whose text form is not available"""
+
+    def __str__(self):
+        raise TypeError("no text form")
+
+    __repr__ = __str__
+
+
 def make_real(flavour, in_prefix, out_prefix, version="2.2", retain=True, pub_raises=False, sub_raises=False):
     """A real MQTT gateway with recording callbacks and a captured add_job."""
     from mysensors.gateway_mqtt import AsyncMQTTGateway, MQTTGateway
-    rec = {"pubs": [], "subs": [], "jobs": []}
+    rec = {"pubs": [], "subs": [], "jobs": [], "raised": 0}
+
+    def fail(where):
+        # what a user's MQTT client raises: with a message, without any argument, with arguments that are
+        # not text, an OSError with errno, a lookup error, an exception class of the user's own
+        rec["raised"] += 1
+        kinds = [lambda: RuntimeError(where + " callback raised"), TimeoutError, lambda: ValueError(7), ConnectionError,
+                 lambda: OSError(5, "Input/output error"), lambda: KeyError(where), UserError,
+                 lambda: UnicodeDecodeError("utf-8", b"\xff", 0, 1, "invalid start byte"), lambda: Exception()]
+        raise kinds[rec["raised"] % len(kinds)]()
 
     def pub(topic, payload, qos, retain_):
         rec["pubs"].append((topic, payload, qos, retain_))
         if pub_raises:
-            raise RuntimeError("pub callback raised")
+            fail("pub")
 
     def sub(topic, cb, qos):
         rec["subs"].append((topic, qos))
         if sub_raises:
-            raise RuntimeError("sub callback raised")
+            fail("sub")
 
     cls = AsyncMQTTGateway if flavour == "async" else MQTTGateway
     gw = cls(pub, sub, in_prefix=in_prefix, out_prefix=out_prefix, retain=retain, protocol_version=version)
